@@ -102,6 +102,9 @@ func (m *memFS) OpenWriter(dir, name string) (types.WritableFile, error) {
 func (h *memHandle) ReadAt(p []byte, off int64) (int, error) {
 	h.f.mu.Lock()
 	defer h.f.mu.Unlock()
+	if off < 0 {
+		return 0, errors.New("readat: negative offset") // as *os.File
+	}
 	if off >= int64(len(h.f.data)) {
 		return 0, io.EOF
 	}
